@@ -40,7 +40,7 @@ JudgeMake(e) ==
 
 JudgeCtor(e) ==
   LET ok == IF e.kind = 1 THEN Valid1(e.f) ELSE Valid2(e.f)
-      open == e.kind = 1 /\ VersionClass1(e.f.version) = "open" IN
+      open == (e.kind = 1 /\ VersionClass1(e.f.version) = "open") \/ Padded(e.f.ofxheader) \/ Padded(e.f.version) IN
   IF open THEN <<>>
   ELSE IF ok THEN << <<"ctor-accepts", e.out.st = "ok">> >>
   ELSE << <<"ctor-refuses", e.out.st = "err">>,
